@@ -268,8 +268,9 @@ def run(ctx):
     if not fx:
         raise MachineryError("no fixtures under sharepoint2text/tests/resources")
     fprocs = [_worker("fixtures", {"files": fx[i::6] if i < 6 else [], "all_files": fx, "wd": str(ctx.scratch / f"fx{i}"),
-                                    "seed": ctx.seed, "gen": {6: "sheets", 7: "hostile"}.get(i, "")},
-                      ctx.scratch, f"fx{i}") for i in range(8)]
+                                    "seed": ctx.seed, "gen": {6: "sheets", 7: "hostile", 8: "paths", 9: "damaged"}.get(i, ""),
+                                    "thorough": ctx.thorough},
+                      ctx.scratch, f"fx{i}") for i in range(10)]
     sizes = payload_sizes(ctx.thorough)
     pbins = [[], [], []]
     for n in sorted(sizes, reverse=True):
@@ -307,6 +308,13 @@ def run(ctx):
                              "missing: binding broken")
     n_host = sum(1 for e in fx_events if e["a"] == "RoundTrip" and e.get("src", "").startswith("generated PDF"))
     n_mail = sum(1 for e in fx_events if e["a"] == "RoundTrip" and ("generated eml" in e.get("src", "") or "generated mbox" in e.get("src", "")))
+    n_path = sum(1 for e in fx_events if e["a"] == "Cli" and "path form: " in e["src"] and "symlink" in e["src"])
+    n_dmg = sum(1 for e in fx_events if e["a"] == "RoundTrip" and "picture members damaged" in e.get("src", "")
+                and '"error", {"t": "str"' in json.dumps(e["v"]))
+    n_iso = sum(1 for e in fx_events if e["a"] == "Cell" and "typed-iso" in e["src"] and e["kind"] == "date")
+    if n_path < 16 or n_dmg < 5 or not n_iso:
+        raise MachineryError(f"CLI runs on symlink path forms ({n_path}) / results with image error records ({n_dmg}) / "
+                             f"ISO date cells ({n_iso}) missing: binding broken ({[n for n in notes if 'symlink' in n][:2]})")
     if n_host < 9 or n_mail < 8:
         raise MachineryError(f"generated hostile PDFs ({n_host}) / mails ({n_mail}) missing: binding broken "
                              f"({[n for n in notes if 'generated' in n][:4]})")
@@ -411,6 +419,11 @@ def run(ctx):
                 "8-bit bytes and RFC 2047 words in every header; directly built PdfImage / DocxImage instances with "
                 "payload sizes around 1/4(/8/16) MiB +-2 and every residue mod 3 (bytes and BytesIO path); the law "
                 "includes Serial!Prop_BinaryOnlyInBinaryFields (field values against the declared hints); "
+                "CLI and read_file(str | pathlib.Path) over path forms (relative, . / .., symlinks with another name / "
+                "suffix, symlinked directory); containers whose picture members are damaged (bad CRC, unsupported "
+                "method, missing) so that every extractor's image.error record is produced; an XLSX stored with ISO "
+                "8601 dates (openpyxl delivers datetime.date); besides results and units also images, their "
+                "ImageMetadata, tables and get_metadata() of every extraction are round-tripped; "
                 "non-trivial = distinct abstract value with more than 8 nodes",
            exhaustive=not ctx.thorough,
            constants={"classes": len(schema), "instantiated": len(inst), "protocol_classes_skipped": skipped,
@@ -471,24 +484,26 @@ def _typed_xlsx(path, seed, k):
     import openpyxl
     rng = random.Random(f"{seed}:{k}")
     wb = openpyxl.Workbook()
+    if k == 3:
+        wb.iso_dates = True          # dates / times stored the ISO 8601 way (t="d"); a bare date stays a date
     ws = wb.active
     ws.title = "typed"
     hdr = ["s", "i", "f", "b", "dt", "d", "t", "dur", "dur2", "none", "err"]
     if k == 1:
         hdr = ["_type", "_bytes", "_bytesio"] + hdr[3:]       # header cells from the marker vocabulary
-    if k == 2:                                                # every typed cell kind in the FIRST row as well
+    if k in (2, 3):                                           # every typed cell kind in the FIRST row as well
         hdr = ["s", 7, 2.5, True, datetime.datetime(2024, 1, 1, 8, 30), datetime.date(2024, 2, 1),
                datetime.time(9, 15), datetime.timedelta(hours=26, minutes=1), datetime.timedelta(seconds=61), None,
                "#N/A", "=1+1"]
     ws.append(hdr)
-    if k == 2:
+    if k in (2, 3):
         ws.cell(row=1, column=8).number_format = "[h]:mm:ss"
         ws.cell(row=1, column=9).number_format = "[h]:mm:ss"
-    for r in range(2 + k):
+    for r in range(2 + k % 3):
         ws.append(["_type" if r == 0 else "x%d" % rng.randrange(100), rng.randrange(-5, 10 ** 6), rng.random() * 100,
                    bool(r % 2), datetime.datetime(2020, 1 + r, 2, 3, 4, 5), datetime.date(2021, 2, 3 + r),
                    datetime.time(1 + r, 2, 3), datetime.timedelta(hours=30 + r, minutes=5),
-                   datetime.timedelta(seconds=rng.randrange(1, 86399)), None, "#DIV/0!"] + (["=2*3"] if k == 2 else []))
+                   datetime.timedelta(seconds=rng.randrange(1, 86399)), None, "#DIV/0!"] + (["=2*3"] if k in (2, 3) else []))
         ws.cell(row=ws.max_row, column=8).number_format = "[h]:mm:ss"
         ws.cell(row=ws.max_row, column=9).number_format = "[h]:mm:ss"
     wb.save(path)
@@ -616,7 +631,10 @@ def _w_fixtures(job):
     from sharepoint2text import cli
     from sharepoint2text.parsing.extractors.serialization import serialize_extraction
     from ..c05_lib import (HOSTILE_PDF_STRINGS, Proj, execute, has_marker_dict, hostile_mail, hostile_mbox,
-                           hostile_pdf, set_positions)
+                           damage_pictures, hostile_pdf, set_positions)
+    import dataclasses
+    from sharepoint2text.parsing.extractors.serialization import _get_type_registry
+    registry = _get_type_registry()
     logging.disable(logging.CRITICAL)
     for n in ("main", "_serialize_results", "_serialize_unit_results"):
         if not hasattr(cli, n):
@@ -642,11 +660,75 @@ def _w_fixtures(job):
         p = wd / "hostile.mbox"
         p.write_bytes(hostile_mbox(variants))
         files.append((str(p), "generated mbox, every header ascii / raw-utf8 / raw-latin1 / rfc2047"))
+    if job["gen"] == "paths":
+        # path forms: the CLI must print the to_json() of read_file(<the path it was given>)
+        base = wd / "paths"
+        (base / "archive" / "2024").mkdir(parents=True)
+        (base / "current").mkdir()
+        md = base / "archive" / "2024" / "status-report-2024-09-30.md"
+        md.write_text("# Status\n\nall green\n")
+        page = base / "archive" / "2024" / "index.html"
+        page.write_text("<html><head><title>T</title></head><body><h1>H</h1><p>para</p></body></html>")
+        forms = [(str(md), "absolute path of a regular file")]
+        os.chdir(base)
+        forms += [("archive/2024/status-report-2024-09-30.md", "relative path"),
+                  ("./archive/../archive/2024/./status-report-2024-09-30.md", "relative path with . and .. components"),
+                  (str(base / "current" / ".." / "archive" / "2024" / "index.html"), "absolute path with a .. component")]
+        try:
+            os.symlink("../archive/2024/status-report-2024-09-30.md", base / "current" / "latest.txt")
+            os.symlink("../archive/2024/index.html", base / "current" / "page.txt")
+            os.symlink("../archive/2024/status-report-2024-09-30.md", base / "current" / "notes.html")
+            os.symlink("archive", base / "linkdir", target_is_directory=True)
+            forms += [("current/latest.txt", "relative symlink latest.txt -> status-report-2024-09-30.md"),
+                      (str(base / "current" / "latest.txt"), "absolute symlink latest.txt -> status-report-2024-09-30.md"),
+                      ("current/page.txt", "symlink page.txt -> index.html (another extractor by suffix)"),
+                      ("current/notes.html", "symlink notes.html -> status-report-2024-09-30.md"),
+                      ("linkdir/2024/index.html", "file below a symlinked directory")]
+        except OSError as e:
+            notes.append(f"symlinks cannot be created here ({type(e).__name__})")
+        for pth, what in forms:
+            files.append((pth, f"path form: {what}"))
+        for pth, what in forms:                       # the library entry with a pathlib.Path argument
+            try:
+                for ri, r in enumerate(sharepoint2text.read_file(Path(pth))):
+                    e = execute(r)
+                    e["src"] = f"path form: {what}, read_file(pathlib.Path)#{ri}"
+                    e["_suspect"] = False
+                    events.append(e)
+            except Exception as ex:
+                notes.append(f"path form {what}: read_file(Path) raised {type(ex).__name__}")
+    if job["gen"] == "damaged":
+        # containers whose picture members cannot be read: the failure records (image.error) of every extractor
+        byext = {}
+        for f in job["all_files"]:
+            ext = os.path.splitext(f)[1].lower()
+            if ext in (".odp", ".ods", ".odt", ".odg", ".docx", ".pptx", ".xlsx", ".epub") and "password" not in f \
+                    and os.path.getsize(f) < 3_000_000:
+                byext.setdefault(ext, []).append(f)
+        n_err = 0
+        for ext, fs in sorted(byext.items()):
+            done = 0
+            for f in sorted(fs, key=os.path.getsize):
+                pkg = Path(f).read_bytes()
+                for kind in ("crc", "method", "missing"):
+                    try:
+                        dmg, npic = damage_pictures(pkg, kind)
+                    except Exception:
+                        npic = 0
+                    if not npic:
+                        break
+                    p = wd / f"damaged-{kind}-{done}{ext}"
+                    p.write_bytes(dmg)
+                    files.append((str(p), f"generated {os.path.basename(f)} with picture members damaged ({kind})"))
+                else:
+                    done += 1
+                if done >= (3 if job.get("thorough") else 1):
+                    break
     if job["gen"] == "sheets":
-        for k in range(3):
-            p = wd / f"typed{k}.xlsx"
+        for k in range(4):
+            p = wd / (f"typed{k}.xlsx" if k < 3 else "typed-iso.xlsx")
             _typed_xlsx(p, job["seed"], k)
-            files.append((str(p), f"generated typed{k}.xlsx"))
+            files.append((str(p), f"generated {p.name}"))
             # Cell events: what openpyxl delivers vs what the extractor stored
             wb = openpyxl.load_workbook(str(p), read_only=True, data_only=True)
             raw = [list(r) for r in wb.active.iter_rows(values_only=True)]
@@ -659,7 +741,7 @@ def _w_fixtures(job):
                     stored = data[ri][ci] if ri < len(data) and ci < len(data[ri]) else None
                     events.append({"a": "Cell", "kind": type(cell).__name__, "row": "header" if ri == 0 else "data",
                                    "out": tags.get(type(stored), "py"), "exc": f"stored {type(stored).__name__}",
-                                   "src": f"generated typed{k}.xlsx R{ri + 1}C{ci + 1}"})
+                                   "src": f"generated {p.name} R{ri + 1}C{ci + 1}"})
         p = wd / "typed.ods"
         _typed_ods(p)
         files.append((str(p), "generated typed.ods"))
@@ -744,6 +826,20 @@ def _w_fixtures(job):
                 units = []
             for ui in sorted(set(list(range(min(3, len(units)))) + ([len(units) - 1] if units else []))):
                 run_variants(units[ui], f"{rel}#{ri} unit {ui + 1}")
+            # the other public serialisation entries: images, their ImageMetadata, tables, the file metadata
+            try:
+                imgs = list(r.iterate_images())
+                tabs = list(r.iterate_tables())
+                extra = [(f"image {k_ + 1}", im) for k_, im in enumerate(imgs) if k_ < 2 or k_ == len(imgs) - 1]
+                extra += [(f"image {k_ + 1} get_metadata()", im.get_metadata()) for k_, im in enumerate(imgs) if k_ < 1]
+                extra += [(f"table {k_ + 1}", t) for k_, t in enumerate(tabs) if k_ < 2]
+                extra.append(("get_metadata()", r.get_metadata()))
+            except Exception as ex:
+                notes.append(f"{rel}: accessor raised {type(ex).__name__}")
+                extra = []
+            for what_, obj_ in extra:
+                if dataclasses.is_dataclass(obj_) and type(obj_).__name__ in registry:
+                    run_variants(obj_, f"{rel}#{ri} {what_}")
         if not serialisable:
             continue                    # already reported by the RoundTrip event; the CLI cannot do better
         # CLI, only where two fresh library extractions agree (determinism is C06's business); the result
